@@ -11,6 +11,17 @@ notes={
 'C07-m3':"round 2: caught",
 'C13-m3':"round 2: caught",
 'C17-m3':"round 2: caught after C17 got an oracle for the HLSL prologue that rebuilds the WGSL arguments from the generated input struct",
+'C06-m3':"round 3: missed at first (no cross() in constant expressions); the constant generator now draws dot / cross and more vector-typed roots",
+'C08-m3':"round 3: caught",
+'C09-m3':"round 3: missed at first; C09 now has a source-level oracle for @location / @interpolate / @blend_src (own attribute scanner), attributes in either order and dual-source fragment outputs",
+'C10-m3':"round 3: missed at first (no recursive input); C10 now has call-cycle families. The author's remarks on the unchanged tree led to findings C10-9..13 and the exhaustive no-value sweep",
+'C11-m3':"round 3: caught",
+'C12-m3':"round 3: caught",
+'C14-m3':"round 3: caught",
+'C15-m3':"round 3: missed at first; the exec generator now declares a workgroup variable that only a helper names, called from then / else / switch positions",
+'C16-m3':"round 3: missed at first: `linear` had been classed as a contextual HLSL word; it is a keyword in Microsoft's table and is now one in the pool and in the HLSL front end",
+'C18-m3':"round 3: caught",
+'C19-m3':"round 3: missed at first; C19 now adds / drops the parentheses of the left group of an operator chain (paren.assoc, unparen.assoc per operator family) and mgen writes && / || chains",
 'C01-m1':"missed by the first quick runs (the thorough tier caught it in 8 min); wgen now observes block-local variables at block end and emits a loop-local accumulator idiom; caught at seed 1 since",
 'C02-m1':"missed at first: no generated helper was reachable only from a continuing block; wgen now emits step helpers called only from continuing / for-update that also own a private variable",
 'C02-m2':"missed at first: non-square transpose was switched off by open finding C08-10; that defect was repaired in /repo (fix 925d909) and the construct is generated again",
@@ -41,7 +52,7 @@ if os.path.exists(p):
         if len(a)>=3: res[a[0]]=(a[2], a[3].strip() if len(a)>3 else '')
 out=["# Independently written changes that break a property (seeded mutants)","",
 "Each directory holds `patch.diff` (apply with `git -C /repo apply`), the author's demonstration `demo_test.go`, its `README.md` and `meta.json`.",
-"All 46 (38 in round 1, two per property; 8 in round 2) were confirmed in a scratch worktree (suite passes with the change, demonstration fails with it and passes without it) before being kept.",
+"All 57 (38 in round 1, two per property; 8 in round 2; 11 in round 3) were confirmed in a scratch worktree (suite passes with the change, demonstration fails with it and passes without it) before being kept.",
 "`tools/mutants_all.sh` re-runs every change against its property's quick check at seeds 1 and 2 (results: `RESULTS.txt`); `tools/mutant.sh` runs one.","",
 "| change | property | what it needs | quick check (seeds 1,2) | notes |","|---|---|---|---|---|"]
 c=m=0
